@@ -417,6 +417,10 @@ func constBounds(c *Ctx, p *Prog, m *Model) {
 				continue
 			}
 			key := fmt.Sprintf("bounds:%s[table %s]", shortName(fn), m.valDesc(s.x))
+			if up < s.need && !idxNonNeg(idx, s.in.Block(), 0) {
+				r.Bad("R02.8", key, p.Pos(instrPos(s.in)), "the position is bounded above (%s) but nothing shows that it is not negative (a signed value, no test against 0): a negative position makes the call panic with an index out of range", why)
+				continue
+			}
 			r.Check(up < s.need, "R02.8", key, p.Pos(instrPos(s.in)), fmt.Sprintf("the position is at most %d (%s), the table has %d entries", up, why, s.need),
 				fmt.Sprintf("the table has %d entries but the position can be %d (%s): that value makes the logging call panic with an index out of range", s.need, up, why))
 		}
@@ -468,6 +472,28 @@ func idxUpper(idx ssa.Value, b *ssa.BasicBlock) (int64, string, bool) {
 				take(255, "byte range")
 			case types.Uint16:
 				take(65535, "uint16 range")
+			}
+		}
+		if ph, ok := cnd.(*ssa.Phi); ok {
+			// a loop variable that starts at a constant and only counts down
+			c0, haveC, down := int64(0), false, true
+			for _, e := range ph.Edges {
+				if k, isC := constInt(e); isC {
+					if !haveC || k > c0 {
+						c0 = k
+					}
+					haveC = true
+					continue
+				}
+				if bo, isB := e.(*ssa.BinOp); isB && bo.Op == token.SUB && bo.X == ssa.Value(ph) {
+					if k, isC := constInt(bo.Y); isC && k >= 0 {
+						continue
+					}
+				}
+				down = false
+			}
+			if haveC && down {
+				take(c0, fmt.Sprintf("counts down from %d", c0))
 			}
 		}
 		if bo, ok := cnd.(*ssa.BinOp); ok {
@@ -690,4 +716,112 @@ func upperOnEntry(v ssa.Value, b *ssa.BasicBlock) (int64, bool) {
 		}
 	}
 	return worst, have
+}
+
+// idxNonNeg: the index cannot be negative: an unsigned (or converted-from-unsigned) value, a length, a masked or
+// reduced value of a non-negative operand, a counted-loop variable starting at a non-negative constant, or a value
+// tested >= 0 (> -1) on the way.
+func idxNonNeg(idx ssa.Value, b *ssa.BasicBlock, depth int) bool {
+	if depth > 6 {
+		return false
+	}
+	if k, ok := constInt(idx); ok {
+		return k >= 0
+	}
+	if bt, ok := idx.Type().Underlying().(*types.Basic); ok && bt.Info()&types.IsUnsigned != 0 {
+		return true
+	}
+	for _, g := range guardsOf(b) {
+		cond, neg := normCond(g.If.Cond)
+		bo, ok := cond.(*ssa.BinOp)
+		if !ok {
+			continue
+		}
+		taken := (g.Succ == 0) != neg
+		if bo.X == idx {
+			if k, isC := constInt(bo.Y); isC {
+				switch {
+				case bo.Op == token.GEQ && taken && k >= 0, bo.Op == token.GTR && taken && k >= -1,
+					bo.Op == token.LSS && !taken && k >= 0, bo.Op == token.LEQ && !taken && k >= -1,
+					bo.Op == token.EQL && taken && k >= 0:
+					return true
+				}
+			}
+		}
+	}
+	switch x := idx.(type) {
+	case *ssa.Convert:
+		return idxNonNeg(x.X, b, depth+1)
+	case *ssa.ChangeType:
+		return idxNonNeg(x.X, b, depth+1)
+	case *ssa.Call:
+		if isBuiltinCall(x, "len") || isBuiltinCall(x, "cap") {
+			return true
+		}
+	case *ssa.BinOp:
+		switch x.Op {
+		case token.AND:
+			if k, ok := constInt(x.Y); ok && k >= 0 {
+				return true
+			}
+			return idxNonNeg(x.X, b, depth+1) || idxNonNeg(x.Y, b, depth+1)
+		case token.REM, token.QUO, token.SHR:
+			return idxNonNeg(x.X, b, depth+1) && (x.Op == token.SHR || idxNonNeg(x.Y, b, depth+1))
+		case token.ADD, token.MUL:
+			// the range form: idx = phi + 1 with phi starting at -1 and continuing with idx itself
+			if k, ok := constInt(x.Y); ok && k >= 1 && x.Op == token.ADD {
+				if ph, isPhi := x.X.(*ssa.Phi); isPhi {
+					okAll := true
+					for _, e := range ph.Edges {
+						if c0, isC := constInt(e); isC && c0 >= -k {
+							continue
+						}
+						if e == ssa.Value(x) {
+							continue
+						}
+						okAll = false
+					}
+					if okAll {
+						return true
+					}
+				}
+			}
+			return idxNonNeg(x.X, b, depth+1) && idxNonNeg(x.Y, b, depth+1)
+		case token.SUB:
+			// a - k under a test a >= k
+			if k, ok := constInt(x.Y); ok {
+				for _, g := range guardsOf(b) {
+					cond, neg := normCond(g.If.Cond)
+					if bo, ok := cond.(*ssa.BinOp); ok && bo.X == x.X {
+						taken := (g.Succ == 0) != neg
+						if k2, isC := constInt(bo.Y); isC && ((bo.Op == token.GEQ && taken && k2 >= k) || (bo.Op == token.GTR && taken && k2 >= k-1) || (bo.Op == token.LSS && !taken && k2 >= k)) {
+							return true
+						}
+					}
+				}
+			}
+		}
+	case *ssa.Phi:
+		// a counted loop variable: every edge is a non-negative constant or the variable plus a non-negative constant
+		for _, e := range x.Edges {
+			if k, ok := constInt(e); ok {
+				if k < 0 {
+					return false
+				}
+				continue
+			}
+			if bo, ok := e.(*ssa.BinOp); ok && bo.Op == token.ADD && bo.X == ssa.Value(x) {
+				if k, ok := constInt(bo.Y); ok && k >= 0 {
+					continue
+				}
+			}
+			if bo, ok := e.(*ssa.BinOp); ok && bo.Op == token.SUB && bo.X == ssa.Value(x) {
+				// counting down: needs a test on the way, handled by the guards above
+				return false
+			}
+			return false
+		}
+		return true
+	}
+	return false
 }
